@@ -1,6 +1,7 @@
 package main
 
 import (
+	"errors"
 	"context"
 	"fmt"
 	"hash/fnv"
@@ -218,6 +219,45 @@ func reconnect(client *xmpp.Client, cfg *xmpp.Config, sess *xmpp.Session, smid s
 	return "none"
 }
 
+// resumeFails: the application answers the Disconnected event with Client.Resume, but the server cannot be reached.
+// The ONE loss has been reported already: the failed attempt returns its error and raises no further Disconnected event.
+func resumeFails(client *xmpp.Client) string {
+	st := newStub(nil)
+	st.onConnect = func() (string, error) {
+		return "", xmpp.NewConnError(errors.New("harness: connection refused"), false)
+	}
+	xmpp.VerifSetTransport(client, st)
+	var mu sync.Mutex
+	disc := 0
+	client.SetHandler(func(e xmpp.Event) error {
+		if xmpp.VerifEventState(e) == xmpp.StateDisconnected {
+			mu.Lock()
+			disc++
+			mu.Unlock()
+		}
+		return nil
+	})
+	errc := make(chan error, 1)
+	go func() {
+		defer func() {
+			if r := recover(); r != nil {
+				errc <- nil
+			}
+		}()
+		errc <- client.Resume()
+	}()
+	var err error
+	select {
+	case err = <-errc:
+	case <-time.After(5 * time.Second):
+		return "hang"
+	}
+	time.Sleep(20 * time.Millisecond) // an event raised by a goroutine the attempt left behind
+	mu.Lock()
+	defer mu.Unlock()
+	return fmt.Sprintf("fails:disc=%d:err=%v", disc, err != nil)
+}
+
 // run renders the history as one XML stream, feeds it to the real receive loop and summarises what happened.
 func (rp *recvProp) run(c Case, component bool, smid string, n0 int, rng *rand.Rand) string {
 	if who := c.Variant[0]; who == "client-tcp" || who == "client-ws" {
@@ -365,6 +405,7 @@ func (rp *recvProp) run(c Case, component bool, smid string, n0 int, rng *rand.R
 	}
 	leaked := runtime.NumGoroutine() - base
 	if hang {
+		hungCases++ // a blocked receive loop: the run stops after three such cases (each costs its full time limit)
 		return fmt.Sprintf("hang leaked=%d", leaked)
 	}
 	quitClosed := false
@@ -428,13 +469,20 @@ func (rp *recvProp) run(c Case, component bool, smid string, n0 int, rng *rand.R
 	}
 	if c.Variant[0] == "client-resume" && rcClient != nil {
 		mu.Unlock()
-		refuse := false
+		refuse, fails := false, false
 		for _, op := range c.Ops {
 			if op[0] == "resume" && len(op) > 1 && op[1] == "refused" {
 				refuse = true
 			}
+			if op[0] == "resume" && len(op) > 1 && op[1] == "fails" {
+				fails = true
+			}
 		}
-		rp.resumeObs = reconnect(rcClient, rcCfg, rcSess, smid, refuse)
+		if fails {
+			rp.resumeObs = resumeFails(rcClient)
+		} else {
+			rp.resumeObs = reconnect(rcClient, rcCfg, rcSess, smid, refuse)
+		}
 		mu.Lock()
 	}
 	return s
@@ -535,6 +583,14 @@ func (rp recvProp) Generate(rng *rand.Rand, tier string, st *Stats) []Case {
 				mkResume("sm1", n0, seq(ks))
 				mk("client", "sm1", n0, seq(ks))
 			}
+		}
+	}
+	// the reconnection attempt that follows the loss fails (server unreachable): still ONE report of the loss
+	if rp.id == "C12" {
+		for _, ks := range [][]string{{"msg", "cut"}, {"msg", "pres", "r"}, {"serr"}, {"msg", "rfail", "msg"}, {}} {
+			ops := append(seq(ks), []string{"finish"}, []string{"resume", "fails"})
+			cases = append(cases, Case{ID: fmt.Sprintf("%s-%d", rp.id, n), Variant: []string{"client-resume", hx("sm1"), "0"}, Ops: ops})
+			n++
 		}
 	}
 	// corpus (witnesses of F-09, F-05, F-12)
